@@ -283,6 +283,7 @@ class World:
         self.zk.order_seed = config.get('child_order')
         self.admin = self.zk.connect('admin')
         self.node_sessions = {}       # server -> client (presence owner)
+        self.untold_servers = set()   # see op_bucket_create
         self.master = None
         self.master_client = None
         self.master_gen = 0
@@ -360,6 +361,7 @@ class World:
         """What run_loop does before its loop.  `fault` = crash plan for the
         master client, counted in storage writes from load_model on."""
         self.master_gen += 1
+        self.untold_servers.clear()
         if self.master_client is not None:
             self.zk.expire(self.master_client.client_id[0])
         client = self.zk.connect('master%d' % self.master_gen)
@@ -407,6 +409,20 @@ class World:
             return json.loads(node.data.decode())
         except ValueError:
             return None
+
+    def server_loadable(self, sname):
+        """Is the server a server of the cell by the records: defined, with a
+        chain of existing buckets up to one that is attached to the cell?"""
+        data = self._zk_obj(z.path.server(sname)) or {}
+        parent = data.get('parent')
+        attached = set(self.zk.children(z.CELL) or [])
+        for _ in range(8):
+            if not parent or self.zk.nodes.get(z.path.bucket(parent)) is None:
+                return False
+            if parent in attached:
+                return True
+            parent = (self._zk_obj(z.path.bucket(parent)) or {}).get('parent')
+        return False
 
     def _stored_state(self, sname):
         stored = self._zk_obj(z.path.placement(sname))
@@ -544,6 +560,7 @@ class World:
                     for name in names:
                         self._truth_server(name)
                         truth.absent.pop(name, None)
+                        self.untold_servers.discard(name)
                 elif resource in ('cell', 'buckets'):
                     truth.absent.clear()
                 elif resource == 'server_state':
@@ -846,6 +863,29 @@ class World:
             self.faults.get('cell_bucket_changed', 0) + 1
         self.dirty_since_cycle = True
 
+    def op_bucket_delete(self, op):
+        """The definition of a bucket is deleted (masterapi posts no event:
+        a running master keeps the bucket, a newly elected one cannot load
+        the servers below it)."""
+        if self.zk.nodes.get(z.path.bucket(op['name'])) is None:
+            return
+        masterapi.delete_bucket(self.admin, op['name'])
+        self.faults['bucket_deleted'] = self.faults.get('bucket_deleted', 0) + 1
+        self.dirty_since_cycle = True
+
+    def op_bucket_create(self, op):
+        if self.zk.nodes.get(z.path.bucket(op['name'])) is not None:
+            return
+        masterapi.create_bucket(self.admin, op['name'], op['parent'])
+        self.dirty_since_cycle = True
+        # the 'buckets' event makes a running master load the bucket, not
+        # the servers defined below it: until it is told about them (servers
+        # event, restart) they are not part of what it can be expected to use
+        for name in self.zk.children(z.SERVERS) or []:
+            data = self._zk_obj(z.path.server(name)) or {}
+            if data.get('parent') == op['name']:
+                self.untold_servers.add(name)
+
     def op_zombie_write(self, op):
         """A delayed write of a former master that lost leadership but whose
         session is not gone yet: a placement record for an instance under a
@@ -1040,7 +1080,8 @@ class World:
             if zk.nodes.get(z.path.server_presence(sname)) is None:
                 continue
             state = self._stored_state(sname)
-            if state == 'frozen' or sname in truth.admin_down:
+            if state == 'frozen' or sname in truth.admin_down or \
+                    sname in self.untold_servers:
                 continue
             # (everything is handled and the server is present: unless an
             # administrator put it down or it is frozen it is up, whatever
@@ -1422,7 +1463,7 @@ class World:
             if oldapp is None or oldapp.server != srv or \
                     app not in scheduled_before:
                 continue
-            if not (self._zk_obj(z.path.server(srv)) or {}).get('parent'):
+            if not self.server_loadable(srv):
                 continue
             state = self._stored_state(srv)
             if pres_ctime is not None and pres_ctime <= entry_ctime:
@@ -1493,7 +1534,7 @@ class World:
             pres_ctime, entry_ctime = ctimes[(srv, app)]
             if pres_ctime is None:
                 continue          # server not present
-            if not (self._zk_obj(z.path.server(srv)) or {}).get('parent'):
+            if not self.server_loadable(srv):
                 # the server's definition is gone (or never completed): it
                 # is not a server of the cell any more, whatever is still
                 # recorded under its name
@@ -1750,6 +1791,42 @@ class Generator:
                 [{'op': 'drain'}, {'op': 'master_cycle'}]]))
         return {'op': 'cell_bucket', 'name': name, 'present': not present}
 
+    def g_bucket_deleted_failover(self, world):
+        """A rack's definition is deleted while its servers hold instances;
+        the running master does not care, the next one cannot load those
+        servers.  Later the rack is defined again."""
+        racks = {}
+        for pod, rs in self.config['topology']:
+            for rack in rs:
+                racks[rack] = pod
+        stored = world.stored_placement()
+        busy = set()
+        for recs in stored.values():
+            for srv, _d in recs:
+                data = world._zk_obj(z.path.server(srv)) or {}
+                if data.get('parent') in racks:
+                    busy.add(data['parent'])
+        cands = sorted(r for r in busy
+                       if world.zk.nodes.get(z.path.bucket(r)) is not None)
+        if not cands:
+            gone = sorted(r for r in racks
+                          if world.zk.nodes.get(z.path.bucket(r)) is None)
+            if not gone:
+                return None
+            rack = self.rng.choice(gone)
+            return {'op': 'bucket_create', 'name': rack, 'parent': racks[rack]}
+        rack = self.rng.choice(cands)
+        self.follow.extend(self.rng.choice([
+            [{'op': 'restart', 'focus': True}],
+            [{'op': 'drain'}, {'op': 'master_cycle'},
+             {'op': 'restart', 'focus': True}]]))
+        self.follow.extend([{'op': 'drain'}, {'op': 'master_cycle'},
+                            {'op': 'bucket_create', 'name': rack,
+                             'parent': racks[rack]}])
+        if self.rng.random() < 0.6:
+            self.follow.append({'op': 'servers_reload_all'})
+        return {'op': 'bucket_delete', 'name': rack}
+
     def g_zombie_write(self, world):
         stored = world.stored_placement()
         apps = sorted(a for a, recs in stored.items() if len(recs) == 1)
@@ -1942,7 +2019,7 @@ OP_WEIGHTS = [
     ('flap_with_reload', 2), ('zombie_write', 1), ('probe_after_group', 2),
     ('pending_start_then_down', 2), ('servers_reload_all', 1),
     ('undefined_server_failover', 5), ('stale_record_failover', 3),
-    ('m_probe', 0),
+    ('m_probe', 0), ('bucket_deleted_failover', 2),
 ]
 
 
@@ -1952,7 +2029,9 @@ def server_spec(rng, cfg, name):
     traits = [t for t in cfg['traits'] if rng.random() < 0.4]
     # a trait the node reports itself, not listed in the cell's /traits
     if cfg.get('node_traits') and rng.random() < 0.4:
-        traits.append(rng.choice(cfg['node_traits']))
+        # (one or several at once)
+        traits.extend(rng.sample(cfg['node_traits'],
+                                 rng.randint(1, len(cfg['node_traits']))))
     return {'name': name, 'parent': rng.choice(racks),
             'partition': rng.choice(cfg['partitions']),
             'memory': rng.choice(CAP_SPELL)(mem),
@@ -2012,7 +2091,8 @@ def make_config(prop, tier, rng):
     nparts = rng.choice([1, 2, 2])
     cfg['partitions'] = ['_default'] + ['part%d' % i for i in range(1, nparts)]
     cfg['traits'] = ['t%d' % i for i in range(rng.choice([0, 1, 2]))]
-    cfg['node_traits'] = ['nt%d' % i for i in range(rng.choice([0, 1, 1, 2]))]
+    cfg['node_traits'] = ['nt%d' % i
+                          for i in range(rng.choice([0, 1, 2, 2, 3]))]
     cfg['proids'] = ['proid%d' % i for i in range(rng.randint(1, 3))]
     cfg['cap_lo'] = rng.choice([2, 4])
     cfg['cap_hi'] = rng.choice([6, 10])
